@@ -25,7 +25,8 @@ TYPES = {"i8": (8, True), "u8": (8, False), "i16": (16, True), "u16": (16, False
          "i32": (32, True), "u32": (32, False), "i64": (64, True), "u64": (64, False)}
 XTYPES = {"ill": (64, True), "ull": (64, False), "ch": (8, True)}     # long long, unsigned long long, char (iterator streams only)
 SIRANGE = {0: ("i32", 0, 0), 1: ("i32", 0, 5), 2: ("i32", -4, 3), 3: ("i32", -6, -2), 4: ("u64", 2, 7), 5: ("i16", 32760, 32767),
-           6: ("u8", 250, 255), 7: ("i64", 4, 4), 8: ("u32", 0, 1), 9: ("i8", -128, -120)}
+           6: ("u8", 250, 255), 7: ("i64", 4, 4), 8: ("u32", 0, 1), 9: ("i8", -128, -120),
+           10: ("u8", 126, 131), 11: ("u32", 2147483646, 2147483650)}      # audit 2: unsigned ranges straddling 2^(w-1)
 SWITCHR = {0: (0, 0), 1: (0, 4), 2: (2, 7), 3: (-3, 2), 4: (2, 5)}
 BITN = ["eq", "ne", "lt", "le", "gt", "ge"]
 
@@ -301,6 +302,48 @@ def gen(ctx):
             for b in range(5):
                 if op != "minus" or a >= b:
                     cases.append("hy fun %s %d %d" % (op, a, b))
+    # ---- dimension audit 2 (mutants/C16/API_COVERAGE.md, "Dimension audit 2")
+    # A: assignment / converting assignment onto a target that already points into ANOTHER container (other position, size, offset, function, index)
+    for kind, lo in (("dyn", -1), ("gen", -1), ("al:2", 0), ("al:0", 0), ("tr", 0), ("ir:i32:5", -1), ("trf", 0), ("sl", 0), ("idx", 0)):
+        for n in range(0, 5):
+            for i in range(lo, n + 1):
+                for j in range(lo, n + 1):
+                    cases.append("asg %s %d %d %d" % (kind, n, i, j))
+    cases.append("asgv -")
+    for _ in range(20 if quick else 300):
+        cases.append("asgv %s" % (",".join(map(str, rxs(7))) or "-"))
+    # B: IndexedIterators with different indices on the two sides; sparse range whose begin / end indices are unrelated
+    IDX = [0, 1, -5, 7, 1000000, -(1 << 62), (1 << 62)]
+    for base in ("dyn", "tr", "ir", "al"):
+        for n in range(0, 5):
+            for i in range(0, n + 1):
+                for j in range(0, n + 1):
+                    pool = IDX[:5] if base == "ir" else IDX      # IndexedIterator<IntegralRangeIterator<int>>::size_type is int
+                    a = rng.choice(pool); b = rng.choice([x for x in pool if x != a])
+                    cases.append("idxcmp %s %d %d %d %d %d" % (base, n, i, j, a, b))
+    for _ in range(25 if quick else 300):
+        cases.append("sparsei %d %d %s" % (rng.choice(IDX[:5]), rng.choice(IDX), ",".join(map(str, rxs())) or "-"))
+    # C: containers whose capacity exceeds their size
+    ra("dynov", range(0, 5), -1)
+    ra("genov", range(0, 5), -1)
+    # D: integral ranges up to the full span of the type; extreme element values through the value-carrying helpers
+    for t in TYPES:
+        lo, hi = tmin(t), tmax(t); w, sg = TYPES[t]; half = 1 << (w - 1)
+        spans = {(lo, hi), (lo, hi - 1), (lo + 1, hi), (lo, lo + half), (lo, lo + half - 1), (lo, lo + half + 1), (hi - half, hi), (hi - half - 1, hi), (lo, lo), (hi, hi), (hi - 1, hi)}
+        if sg: spans |= {(-1, hi), (lo, 0), (lo, 1), (-half // 2 - 1, half // 2 + 1)}
+        for (f, to) in sorted(spans):
+            xs = sorted({x for x in (f - 1, f, f + 1, to - 1, to, to + 1, lo, hi, 0, -1, half - 1, half) if lo <= x <= hi})
+            cases.append("irangex %s %d %d %s" % (t, f, to, ",".join(map(str, xs))))
+        for _ in range(6 if quick else 100):
+            f = rng.randrange(lo, hi + 1); to = rng.randrange(f, hi + 1)
+            xs = [rng.randrange(lo, hi + 1) for _ in range(3)] + [f, to]
+            cases.append("irangex %s %d %d %s" % (t, f, to, ",".join(map(str, xs))))
+    EXT = [-(1 << 31), (1 << 31) - 1, -(1 << 31) + 1, (1 << 31) - 2, 0, -1, 1]
+    for _ in range(20 if quick else 200):
+        xs = ",".join(str(rng.choice(EXT)) for _ in range(rng.randrange(1, 7)))
+        cases.append("rutil %s" % xs); cases.append("sparse dyn %s" % xs); cases.append("sparse cdyn %s" % xs)
+        cases.append("tr %s %d %d %s" % (rng.choice(["vec", "cvec", "rvec", "dyn", "list", "al"]), rng.choice([1, -1, 3]), rng.choice([0, 1, -7]), xs))
+        cases.append("trx nested %s" % xs)
     return cases
 
 
@@ -314,7 +357,7 @@ def toks(line):
 
 def case_class(case):
     t = case.split()
-    if t[0] in ("cmp", "cmpx", "step", "bcmp", "bstep", "ncmp", "nstep", "cont", "prim", "self", "walk"):
+    if t[0] in ("cmp", "cmpx", "step", "bcmp", "bstep", "ncmp", "nstep", "cont", "prim", "self", "walk", "asg", "idxcmp"):
         return t[0], t[1].split(":")[0]
     if t[0] in ("trx", "hyx"):
         return t[0], t[1]
@@ -343,7 +386,7 @@ def oracle_all(case, impl, spec):
         if di.get(k) == ds[k]:
             continue
         got = di.get(k, "<missing>")
-        if op in ("cmp", "cmpx", "bcmp", "ncmp"):
+        if op in ("cmp", "cmpx", "bcmp", "ncmp") or (op == "idxcmp" and k in ("vv", "vp", "pv")):
             i, j = int(t[3]), int(t[4])
             rel = "i=j" if i == j else ("i<j" if i < j else "i>j")
             mixed = "mixed" if k[0] != k[1] else "same"
@@ -392,7 +435,7 @@ def groups():
     g = [("iter1", "impl.cc", "c16_iter_case_1", ["-DC16_PART=1"]), ("iter2", "impl.cc", "c16_iter_case_2", ["-DC16_PART=2"]),
          ("iter3", "impl.cc", "c16_iter_case_3", ["-DC16_PART=3"]), ("misc", "impl.cc", "c16_misc_case", ["-DC16_PART=4"]),
          ("hybrid", "impl.cc", "c16_hy_case", ["-DC16_PART=5"]), ("extra", "impl2.cc", "c16_extra_case", []),
-         ("audit", "impl4.cc", "c16_audit_case", [])]
+         ("audit", "impl4.cc", "c16_audit_case", []), ("audit2", "impl5.cc", "c16_audit2_case", [])]
     for i, (t, f, to) in SIRANGE.items():
         g.append(("sir%d" % i, "impl3.cc", "c16_sirange_%d" % i,
                   ["-DC16_SIR_FN=c16_sirange_%d" % i, "-DC16_SIR_T=%s" % SIR_T[t], "-DC16_SIR_TO=(%d)" % to, "-DC16_SIR_FROM=(%d)" % f]))
@@ -441,7 +484,7 @@ def build(ctx, san=True):
         return obj
 
     objs = {}
-    with ThreadPoolExecutor(max_workers=V.NCPU) as ex:
+    with ThreadPoolExecutor(max_workers=min(V.NCPU, int(os.environ.get('VERIF_C16_JOBS', '8')))) as ex:
         futs = [(name, ex.submit(one, name, kw, *g)) for name, kw in variants for g in groups()]
         for name, kw in variants:
             futs.append((name, ex.submit(lambda n=name, k=kw: V.cxx(ctx, [os.path.join(H, "main.cc")], ctx.path("%s.main.o" % n), repo_srcs=[], flags=["-g0", "-c"], **k))))
